@@ -164,3 +164,32 @@ def twin_all_equal(a1: int, a2: int) -> bool:
     post: _
     """
     return sv.Version(str(a1) + ".0")._key == sv.Version(str(a2))._key
+
+
+SUFFIX_PAIRS = [("", ".post"), (".post", ".post"), ("", ".dev"), ("a", ""), ("rc", ".post"), ("", "-"), (".post", ".dev"), ("b", "rc")]
+PAIR = SUFFIX_PAIRS[P.get("pair", 0)]
+
+
+def _segs(kind, n):
+    if kind == "":
+        return None, None, None
+    if kind in (".post", "-"):
+        return None, n, None
+    if kind == ".dev":
+        return None, None, n
+    return (kind, n), None, None
+
+
+def text_order(a: int, b: int, n: int, m: int) -> bool:
+    """two texts with the same release and different segments, parsed by Version(): their order is PEP 440's
+    (a post release numbered 0 is still later than the plain release, a dev release earlier, ...)
+    pre: 0 <= a <= 9 and 0 <= b <= 9 and 0 <= n <= 9 and 0 <= m <= 9
+    post: _
+    """
+    k1s, k2s = PAIR
+    t1 = str(a) + "." + str(b) + (k1s + str(n) if k1s else "")
+    t2 = str(a) + "." + str(b) + (k2s + str(m) if k2s else "")
+    v1, v2 = sv.Version(t1), sv.Version(t2)
+    r1 = ref.key(0, (a, b), *_segs(k1s, n))
+    r2 = ref.key(0, (a, b), *_segs(k2s, m))
+    return (v1 < v2) == (r1 < r2) and (v1 == v2) == (r1 == r2) and (v1 > v2) == (r1 > r2)
